@@ -21,6 +21,9 @@ inductive Stmt where
   | err
 deriving Repr, DecidableEq
 
+/-- the account the test contracts pay from (user 3 of the harness, "the bank") -/
+def payer : Nat := 3
+
 /-- the program of a statement list as a function of the results so far -/
 def nextAct : List Stmt → List Res → Option Act
   | [], _ => none
@@ -48,7 +51,7 @@ def nextAct : List Stmt → List Res → Option Act
       | [.items (some l)] => some (.op (.put b d (2 + l.length)))
       | [_] => some .err
       | _ :: _ :: r => nextAct rest r
-    | .xfer to amt => match res with | [] => some (.transfer to amt) | _ :: r => nextAct rest r
+    | .xfer to amt => match res with | [] => some (.transfer payer to amt) | _ :: r => nextAct rest r
     | .ev e => match res with | [] => some (.event e) | _ :: r => nextAct rest r
     | .burn n => match res with | [] => some (.burn n) | _ :: r => nextAct rest r
     | .subuse n => match res with | [] => some (.subuse n) | _ :: r => nextAct rest r
@@ -152,6 +155,8 @@ structure DState where
   price : Nat := 0
   db : DB := DB.empty
   slots : List (String × Pending) := []
+  bank : List TxIn := []      -- the unspent, unlocked outputs of the paying account (state of the first-run reader)
+  victim : List TxIn := []    -- unspent, unlocked outputs of a bystander (user 4), each worth what one of the bank's is
 
 def verStr (v : Nat) : String :=
   if v == 0 then "-" else s!"{(v - 1) / 1024}.{(v - 1) % 1024}"
@@ -161,9 +166,10 @@ def preLine (stmts : List Stmt) (p : Pre) : String :=
   let body := "|".intercalate (bodyOf stmts p.res)
   let r := p.kin.map (fun (b, k, v) => s!" {b}:{k}@{verStr v}")
   let w := p.kout.map (fun (b, k, v) => s!" {b}:{k}={v}")
-  let x := p.cx.map (fun (t, a) => s!" {t}:{a}")
+  let i := p.cin.map (fun u => s!" {u.amt}")
+  let x := p.cx.map (fun o => s!" {o.to}:{o.amt}")
   let e := p.ev.map (fun e => s!" {e % 100}")
-  s!"{oc} B {body} R{String.join r} W{String.join w} X{String.join x} E{String.join e} U {p.used}"
+  s!"{oc} B {body} R{String.join r} W{String.join w} I{String.join i} X{String.join x} E{String.join e} U {p.used}"
 
 def getSlot (d : DState) (s : String) : Option Pending := (d.slots.find? (·.1 == s)).map (·.2)
 def setSlot (d : DState) (s : String) (p : Pending) : DState :=
@@ -183,8 +189,21 @@ def swapEnds : List WEntry → List WEntry
     | [] => [a]
   | [] => []
 
-/-- one mutation of the abstract transaction; `none` = does not apply -/
-def mutate (d : DState) (p : Pending) (pre : Pre) (t : Tx) (cls : String) (args : List String) (rest : String) : Option Tx :=
+/-- optional index argument of a token mutation (`none` = malformed) -/
+def idxArg (args : List String) (dflt : Nat) : Option Nat :=
+  match args with
+  | [] => some dflt
+  | [j] => j.toNat?
+  | _ => none
+
+/-- the receiver a re-routed output goes to: the initiator (user 0), or user 1 if it is the initiator's already -/
+def otherTo (to : Nat) : Nat := if to == 0 then 1 else 0
+
+/-- one mutation of the abstract transaction; `none` = does not apply.  `iadd` takes an output out of the
+paying account's unspent ones, so the driver state is returned too. -/
+def mutate (d : DState) (p : Pending) (pre : Pre) (t : Tx) (cls : String) (args : List String) (rest : String) :
+    Option (Tx × DState) :=
+  let pure' (t : Tx) : Option (Tx × DState) := some (t, d)
   match cls, args with
   | "rver", [bk, how] => do
     let (b, k) ← parseBK bk
@@ -195,81 +214,163 @@ def mutate (d : DState) (p : Pending) (pre : Pre) (t : Tx) (cls : String) (args 
       | "bump" => if v == 0 then none else some (v + 1)
       | "root" => if v != 0 then none else some (mkVer 9999 0)
       | _ => none)
-    pure { t with kin := t.kin.map (fun e => if e.1 == b && e.2.1 == k then (b, k, nv) else e) }
+    pure' { t with kin := t.kin.map (fun e => if e.1 == b && e.2.1 == k then (b, k, nv) else e) }
   | "rdrop", [bk] => do
     let (b, k) ← parseBK bk
     if !hasKey t.kin b k then none
-    pure { t with kin := t.kin.filter (fun e => !(e.1 == b && e.2.1 == k)) }
+    pure' { t with kin := t.kin.filter (fun e => !(e.1 == b && e.2.1 == k)) }
   | "radd", [bk] => do
     let (b, k) ← parseBK bk
     if hasKey t.kin b k then none
-    pure { t with kin := t.kin ++ [(b, k, (d.db.cur b k).ver)] }
+    pure' { t with kin := t.kin ++ [(b, k, (d.db.cur b k).ver)] }
   | "wval", [bk, v] => do
     let (b, k) ← parseBK bk
     let v ← v.toNat?
     let e ← t.kout.find? (fun e => e.1 == b && e.2.1 == k)
     if e.2.2 == v then none
-    pure { t with kout := t.kout.map (fun e => if e.1 == b && e.2.1 == k then (b, k, v) else e) }
+    pure' { t with kout := t.kout.map (fun e => if e.1 == b && e.2.1 == k then (b, k, v) else e) }
   | "wdrop", [bk] => do
     let (b, k) ← parseBK bk
     if !hasKey t.kout b k then none
-    pure { t with kout := t.kout.filter (fun e => !(e.1 == b && e.2.1 == k)) }
+    pure' { t with kout := t.kout.filter (fun e => !(e.1 == b && e.2.1 == k)) }
   | "wadd", [bk, v] => do
     let (b, k) ← parseBK bk
     let v ← v.toNat?
     if hasKey t.kout b k then none
-    pure { t with kout := t.kout ++ [(b, k, v)] }
-  | "wperm", [] => if t.kout.length < 2 then none else some { t with kout := swapEnds t.kout }
+    pure' { t with kout := t.kout ++ [(b, k, v)] }
+  | "wperm", [] => if t.kout.length < 2 then none else pure' { t with kout := swapEnds t.kout }
   | "args", _ => do
     if rest == p.text then none
     let st ← parseProg 1 rest
-    pure { t with prog := nextAct st }
-  | "method", [] => some { t with prog := fun _ => some .err }
+    pure' { t with prog := nextAct st }
+  | "method", [] => pure' { t with prog := fun _ => some .err }
   | "contract", [] => do
     let st ← parseProg 2 p.text
-    pure { t with prog := nextAct st }
-  | "limit", [] => if pre.used == 0 then none else some { t with limit := pre.used - 1 }
-  | "fee", [] => if d.price * pre.used == 0 then none else some { t with fee := t.fee - 1 }
-  | "nofee", [] => if d.price * pre.used == 0 then none else some { t with fee := 0 }
-  | "xroute", [] =>
-    match t.outs with
-    | (_, a) :: r => some { t with outs := (0, a) :: r }
+    pure' { t with prog := nextAct st }
+  | "limit", [] => if pre.used == 0 then none else pure' { t with limit := pre.used - 1 }
+  | "fee", [] => if d.price * pre.used == 0 then none else pure' { t with fee := t.fee - 1 }
+  | "nofee", [] => if d.price * pre.used == 0 then none else pure' { t with fee := 0 }
+  -- the real output number j of the contract goes to another address, same amount
+  | "xroute", _ => do
+    let j ← idxArg args 0
+    if j ≥ pre.cx.length then none
+    let o ← t.outs[j]?
+    pure' { t with outs := t.outs.set j ⟨otherTo o.to, o.amt⟩ }
+  -- the real output number j of the contract (default: the first one worth more than 1) is lowered by 1,
+  -- the difference goes to the initiator
+  | "xamt", _ => do
+    let j ← idxArg args ((pre.cx.findIdx? (fun o => o.amt > 1)).getD pre.cx.length)
+    if j ≥ pre.cx.length then none
+    let o ← t.outs[j]?
+    if o.amt ≤ 1 then none
+    pure' { t with outs := t.outs.set j ⟨o.to, o.amt - 1⟩ ++ [⟨0, 1⟩] }
+  | "xdecl", [] => if t.cx == [] then none else pure' { t with cx := [] }
+  -- output number j goes to another address in the declaration and in the real outputs alike
+  | "xboth", _ => do
+    let j ← idxArg args 0
+    if j ≥ pre.cx.length then none
+    let o ← t.cx[j]?
+    pure' { t with cx := t.cx.set j ⟨otherTo o.to, o.amt⟩, outs := t.outs.set j ⟨otherTo o.to, o.amt⟩ }
+  -- the first two declared contract outputs change places (declaration only)
+  | "xswap", [] =>
+    match t.cx with
+    | a :: b :: r => if a == b then none else pure' { t with cx := b :: a :: r }
+    | _ => none
+  -- declared contract input number j is dropped from the declaration
+  | "idrop", _ => do
+    let j ← idxArg args 0
+    if j ≥ t.cin.length then none
+    pure' { t with cin := t.cin.eraseIdx j }
+  -- the first two declared contract inputs change places
+  | "iswap", [] =>
+    match t.cin with
+    | a :: b :: r => pure' { t with cin := b :: a :: r }
+    | _ => none
+  -- a further output of the paying account is declared as a contract input, spent as a real input and paid
+  -- out to the initiator
+  | "iadd", [] =>
+    match d.bank with
+    | u :: r => some ({ t with cin := t.cin ++ [u], ins := t.ins ++ [u.ref], outs := t.outs ++ [⟨0, u.amt⟩] },
+                      { d with bank := r })
     | [] => none
-  | "xamt", [] =>
-    if t.outs.any (fun o => o.2 > 1) then
-      let rec go : List (Nat × Nat) → List (Nat × Nat)
-        | [] => []
-        | (to, a) :: r => if a > 1 then (to, a - 1) :: r else (to, a) :: go r
-      some { t with outs := go t.outs ++ [(0, 1)] }
-    else none
-  | "xdecl", [] => if t.cx == [] then none else some { t with cx := [] }
-  | "evt", [] => if t.ev == [] then none else some { t with ev := [999] }
-  | "evdrop", [] => if t.ev == [] then none else some { t with ev := [] }
+  -- declared contract input number j and the real input spending it are replaced by an output of the same worth
+  -- that belongs to a bystander
+  | "isub", _ => do
+    let j ← idxArg args 0
+    let c ← t.cin[j]?
+    match d.victim with
+    | v :: r =>
+      if v.amt != c.amt then none
+      else some ({ t with cin := t.cin.set j v, ins := t.ins.set j v.ref }, { d with victim := r })
+    | [] => none
+  -- the real input that spends declared contract input number j is replaced by an output of the initiator
+  | "inreal", _ => do
+    let j ← idxArg args 0
+    if j ≥ t.cin.length then none
+    pure' { t with ins := t.ins.set j 1000000 }
+  -- declared contract input number j is dropped and the real input spending it is replaced by an output of the
+  -- initiator: the transaction balances, but the declared contract inputs no longer cover the transfers
+  | "ishort", _ => do
+    let j ← idxArg args 0
+    if j ≥ t.cin.length then none
+    pure' { t with cin := t.cin.eraseIdx j, ins := t.ins.eraseIdx j ++ [1000000] }
+  | "evt", [] => if t.ev == [] then none else pure' { t with ev := [999] }
+  | "evdrop", [] => if t.ev == [] then none else pure' { t with ev := [] }
   -- no requests, no reads, only the transient entries of the write set: re-executing nothing produces nothing
-  | "noreq", [] => if t.cx == [] && t.ev == [] then none
-                   else some { t with prog := fun _ => none, limit := 0, kin := [], kout := [] }
-  | "same", [] => some t
+  | "noreq", [] => if t.cin == [] && t.cx == [] && t.ev == [] then none
+                   else pure' { t with prog := fun _ => none, limit := 0, kin := [], kout := [] }
+  | "same", [] => pure' t
   | _, _ => none
 
 def afterWords (line : String) (n : Nat) : String :=
   -- the rest of the line after the first n words (single spaces between them)
   " ".intercalate ((line.splitOn " ").filter (· ≠ "") |>.drop n)
 
+/-- `bank=<amount>x<count>`: the paying account owns <count> outputs worth <amount> each -/
+def parseBank (s : String) : Option (List TxIn) :=
+  if !s.startsWith "bank=" then none
+  else
+    match ((s.drop 5).toString.splitOn "x").mapM (·.toNat?) with
+    | some [u, n] => if u == 0 || n > 1000 then none else some ((List.range n).map (fun i => ⟨i, payer, u⟩))
+    | _ => none
+
+def defaultBank : List TxIn := (List.range 40).map (fun i => ⟨i, payer, 1000000⟩)
+
+/-- the bystander (user 4) owns 6 outputs, each worth what one of the paying account's is -/
+def victimOf (bank : List TxIn) : List TxIn :=
+  match bank with
+  | u :: _ => (List.range 6).map (fun i => ⟨2000 + i, 4, u.amt⟩)
+  | [] => []
+
+def resetTo (f : String) (bank : List TxIn) : Option DState :=
+  if f == "fee=1" then some { price := 1, bank := bank, victim := victimOf bank }
+  else if f == "fee=0" then some { price := 0, bank := bank, victim := victimOf bank }
+  else none
+
 def step (d : DState) (line : String) : DState × String :=
   match words line with
   | ["reset", f] =>
-    if f == "fee=1" then ({ price := 1 }, "ok")
-    else if f == "fee=0" then ({ price := 0 }, "ok")
-    else (d, "bad-op")
+    match resetTo f defaultBank with
+    | some d' => (d', "ok")
+    | none => (d, "bad-op")
+  | ["reset", f, b] =>
+    match parseBank b with
+    | none => (d, "bad-op")
+    | some bank =>
+      match resetTo f bank with
+      | some d' => (d', "ok")
+      | none => (d, "bad-op")
   | "pre" :: slot :: _ :: _ =>
     let text := afterWords line 2
     match parseProg 1 text with
     | none => (d, "bad-op")
     | some st =>
       let p := nextAct st
-      match preexec bks fuel d.db p with
-      | none => (setSlot d slot ⟨text, st, none, none⟩, "error")
-      | some pre => (setSlot d slot ⟨text, st, some pre, some (assemble d.price 0 p pre)⟩, preLine st pre)
+      -- what the pre-execution selected stays locked, whatever became of the call
+      let d' := { d with bank := preexecRd bks fuel d.db listReader d.bank p }
+      match preexec bks fuel d.db listReader d.bank p with
+      | none => (setSlot d' slot ⟨text, st, none, none⟩, "error")
+      | some pre => (setSlot d' slot ⟨text, st, some pre, some (assemble d.price 0 p pre)⟩, preLine st pre)
   | ["commit", slot, id] =>
     match getSlot d slot, id.toNat? with
     | some p, some id =>
@@ -287,12 +388,12 @@ def step (d : DState) (line : String) : DState × String :=
       | some pre, some t =>
         match mutate d p pre t cls args (afterWords line 3) with
         | none => (d, "n/a")
-        | some t' =>
-          -- which stage refuses: `State.VerifyTx` (reads current, gas, declared transfers real, re-execution) or only
-          -- the xmodel admission of `State.DoTx` (written keys are declared reads)
-          let v1 := readsCurrent d.db t'.kin && decide (d.price * t'.limit ≤ t'.fee) && subMulti t'.cx t'.outs &&
+        | some (t', d') =>
+          -- which stage refuses: `State.VerifyTx` (reads current, gas, declared contract inputs / outputs real,
+          -- re-execution) or only the xmodel admission of `State.DoTx` (written keys are declared reads)
+          let v1 := readsCurrent d.db t'.kin && decide (d.price * t'.limit ≤ t'.fee) && effective t' &&
             reexecOK bks fuel d.db t'
-          (d, if !v1 then "reject-v" else if !writesRead t' then "reject-d" else "accept")
+          (d', if !v1 then "reject-v" else if !writesRead t' then "reject-d" else "accept")
       | _, _ => (d, "n/a")
   | ["mine"] => (d, "ok")
   | ["replica"] => (d, "same")
